@@ -68,7 +68,8 @@ def make(targets, timeout=1500, jobs=16):
     os.makedirs(os.path.join(OCAML, "gen"), exist_ok=True)
     cmd = ["timeout", str(timeout), "make", "-j", str(jobs), "-k"] + list(targets)
     t0 = time.time()
-    p = subprocess.run(cmd, cwd=COQ, capture_output=True, text=True)
+    # each coqc is capped at 24 GB of address space so a runaway vm_compute cannot take the machine down
+    p = subprocess.run(["bash", "-c", "ulimit -v 24000000 2>/dev/null; exec \"$@\"", "make"] + cmd, cwd=COQ, capture_output=True, text=True)
     return p.returncode == 0, p.stdout + p.stderr, time.time() - t0, "cd coq && " + " ".join(cmd)
 
 
